@@ -4,14 +4,14 @@ CONFIG = dict(
     lean_modules=["Canopy.Props.C13"],
     driver=True,
     level="proof",
-    technique="Lean 4 proof (sorted-permutation uniqueness, top-k, uint64 threshold) over generated comparator/threshold + differential correspondence on the real FSM",
-    level_text="Theorems committee_perm (the ordered committee depends only on the set of validator records: ties resolved identically everywhere), members_eligible, members_length (cap, 0 = unlimited), committee_topk, totalPower_exact and threshold_exact are proved for every population; the sort comparator and the +2/3 threshold expression they are about are regenerated from fsm.getValidatorSet / lib.NewValidatorSet on every run. The hand-modelled remainder (filter, cap, historical lookup) is run against the real GetCommitteeMembers / GetDelegates / LoadCommittee on random populations with ties, zero stakes, paused/unstaking mixes, caps incl. 0, stakes near 2^64, and past heights re-queried after later history.",
+    technique="Lean 4 proof (sorted-permutation uniqueness, top-k, uint64 threshold) over the generated comparator, PassesFilter, filter literal, cap/limit and threshold of getValidatorSet + differential correspondence on the real FSM",
+    level_text="Theorems committee_perm (the ordered committee depends only on the set of validator records: ties resolved identically everywhere), members_eligible, members_length (cap, 0 = unlimited), committee_topk, totalPower_exact and threshold_exact are proved for every population; members_eq_source proves that the model is exactly the composition of the pieces regenerated from the source on every run: Validator.PassesFilter (translated, tagless switches desugared) applied to the translated filter literal and delegate-filter choice, the comparator closure of slices.SortFunc, the limit computation, and (threshold_exact) the +2/3 expression of lib.NewValidatorSet; filtered_is_fresh pins the statement that builds the candidate slice (never the cached validator list in place) and member_construction_fact the fields of each member. The remainder (caches, historical lookup) is run against the real GetCommitteeMembers / GetDelegates / LoadCommittee on random populations with ties, zero stakes, paused/unstaking mixes, caps incl. 0, stakes near 2^64, and past heights re-queried after later history.",
     level_note="Trusts Lean's kernel, the translator, and the correspondence run for the hand-modelled parts. Explicit hypotheses: distinct validator addresses (state keys guarantee it); 2*T < 2^64 for the threshold (threshold_wraps shows the generated uint64 expression is wrong beyond it: F6, not reachable while total supply < 2^63). 'Asking again later returns the same set' rests on C10 (history immutability) and is sampled here through the shared historical validator cache.",
     trusted_base=[AXIOMS, TRANSLATOR, CORR,
                   "BLS public keys are opaque byte strings in the model; key aggregation is not modelled"],
     assumptions=["validator addresses are pairwise distinct (one state key per address)",
                  "2*totalPower < 2^64 for threshold_exact (witness threshold_wraps at 2^63)",
-                 "the harness writes validator records directly with SetValidator and resets the FSM's per-block caches before each query"],
+                 "the harness writes validator records directly with SetValidator and resets the FSM's per-block caches before the first query after a write; follow-up derivations in the same block run without a reset, as in the node"],
     rule="case = one fresh FSM with a random history of validator upserts/deletes, committee/delegate queries with random chain, cap (0..5) and kind, version commits and historical queries. distinct_nontrivial = distinct (case, result) pairs whose committee has >= 2 members, plus every historical query, hash-counted.",
     explanation="The correspondence compares the full ValidatorSet (members in order with power, NumValidators, TotalPower, MinimumMaj23, or the error code) with the model after every query.",
 )
